@@ -125,7 +125,7 @@ def finding_key(case, verdict, detail, eng_out):
     if verdict.startswith('REJECT:semantic:') and st == 'having-count-vs-aggregate':
         return 'aggregation:having-compares-count-with-another-aggregate:SemanticError-%s' % verdict.rsplit(':', 1)[1]
     if verdict.startswith('REJECT:semantic:') and st == 'having-without-result-identifiers':
-        return 'aggregation:having-when-the-result-has-no-identifiers:SemanticError-%s' % verdict.rsplit(':', 1)[1]
+        return 'aggregation:having-combining-two-aggregates-when-the-result-has-no-identifiers:SemanticError-%s' % verdict.rsplit(':', 1)[1]
     if verdict == 'DISAGREE:engine-error' and eng_out[0] == 'raw':
         cls = eng_out[1].split('.')[-1]
         if st == 'minmax-no-measures-ungrouped':
